@@ -580,6 +580,15 @@ func (c *Context) Cbrt(d, x *Decimal) (Condition, error) {
 
 	var ax, z Decimal
 	ax.Abs(x)
+	// Factor a power of 10^3 out of the argument: cbrt(ax * 10^(3k)) =
+	// cbrt(ax) * 10^k. The range reduction below then takes a handful of steps
+	// whatever the exponent of x; otherwise it multiplies by 8 (or 1/8) about
+	// 1.1*|exponent| times at the working precision, and at a Precision of 1
+	// or 2 the accumulated rounding error ruins the starting estimate so that
+	// the iteration fails to converge. k is added back before the final
+	// rounding, so that the context's exponent limits apply to the real result.
+	expShift := (int32(ax.NumDigits()) + ax.Exponent) / 3
+	ax.Exponent -= 3 * expShift
 	z.Set(&ax)
 	neg := x.Negative
 	nc := BaseContext.WithPrecision(c.Precision*2 + 2)
@@ -653,6 +662,7 @@ func (c *Context) Cbrt(d, x *Decimal) (Condition, error) {
 	// the neighbour of the exact root for perfect cubes.
 	rc := c.WithPrecision(c.Precision)
 	rc.Rounding = RoundHalfEven
+	z.Exponent += expShift
 	res := rc.round(d, &z)
 	res, err := c.goError(res)
 	d.Negative = neg
